@@ -167,7 +167,9 @@ class AtomsEngine(Engine):
     assumptions = ['single caller; atomman has no threads',
                    'sharing between a slice child and its parent is undocumented: cells written through one side are accepted '
                    'as old-or-new on the other side, everything else must be exact',
-                   'statement silent on atomicity of a refused multi-property __setitem__: each affected cell old or new']
+                   'a refused operation (it raised) is held to "nothing happened": the model keeps the old values and the ordinary invariants '
+                   'judge the object (row alignment is what the statement promises; the unchanged library validates before it writes); '
+                   'an ill-formed request that is NOT refused is adopted as the new state and judged by the structural invariants only']
 
     # ------------------------------------------------------------------
     def config(self, ctx):
